@@ -22,6 +22,7 @@ from typing import Any
 from hypothesis import given, strategies as st
 
 from vf import spec as S, specgen
+from vf.harness import apply_edits, perturb_strategies
 
 PROP = "C01"
 LEVEL = "exploration"
@@ -62,14 +63,21 @@ def template_specs(draw: Any) -> dict[str, Any]:
         op = draw(st.sampled_from(["opt", "star", "plus"]))
         inner = [op, ["lit", "a"]]
         x = ["seq", [[op, ["alt", [["lit", "c"], ["seq", [["lit", "b"], inner]]]]], ["lit", "!"]]]
-        y = ["seq", [[op, ["seq", [[op, ["lit", "d"]], ["lit", "e"]]]], ["lit", "."]]]
+        # <y> spells words over the same alphabet, many of them just outside L(<x>)
+        y = ["seq", [["star", ["alt", [["lit", "b"], ["lit", "c"]]]], ["opt", ["lit", "a"]], ["lit", "!"]]]
         rules = [["start", ["seq", [["nt", "x"], ["nt", "y"]]]], ["x", x], ["y", y]]
         spec0 = {"rules": rules, "mode": "text", "alphabet": "ab"}
         sem = S.Sem(spec0)
         cons = []
         for nt in ("x", "y"):
             ws = sem.enumerate_words(nt, max_len=6, cap=60)
-            cons.append(f"str(<{nt}>) == {ws[draw(st.integers(0, len(ws) - 1))]!r}")
+            w = ws[draw(st.integers(0, len(ws) - 1))]
+            if draw(st.integers(0, 2)) == 0:
+                # a near-miss outside L(<nt>): a sound parser gives the repair nothing to plant
+                w = apply_edits(w, draw(perturb_strategies()), "abc!")
+            cons.append(f"str(<{nt}>) == {w!r}")
+        if draw(st.booleans()):
+            cons = ["str(<x>) == str(<y>)"]
         return dict(spec0, constraints=cons, family=fam)
     if fam == "crep":
         rules = [["start", ["seq", [["nt", "len"], ["lit", ":"], ["crep", ["nt", "item"], "int(<len>)"]]]],
@@ -114,6 +122,8 @@ def search_cases(draw: Any) -> dict[str, Any]:
                 words = sem.enumerate_words(nt, max_len=4, cap=40)
                 if words:
                     w = words[draw(st.integers(0, len(words) - 1))]
+                    if draw(st.integers(0, 3)) == 0:
+                        w = apply_edits(w, draw(perturb_strategies()), spec["alphabet"])
                     cons.append(f"str(<{nt}>) == {w!r}")
                     continue
             if kind == "pred":
